@@ -113,7 +113,7 @@ func (x *exec) resolveGhostCall(c *ECall, env *Env) (*types.Func, *Val, []Expr) 
 	case *ESel:
 		if id, ok := f.X.(*EId); ok {
 			if _, isVar := env.vars[id.Name]; !isVar {
-				if p := x.p.findPkg(env.pkg, id.Name); p != nil {
+				if p := x.findPkg(env.pkg, id.Name); p != nil {
 					if obj, ok := p.Scope().Lookup(f.Name).(*types.Func); ok {
 						return obj, nil, c.Args
 					}
